@@ -96,6 +96,13 @@ func (w *c06World) reopenWith(size uint32, hashes []pcom.Uint256, what string) b
 	return true
 }
 
+func b2int(b bool) int {
+	if b {
+		return 1
+	}
+	return 0
+}
+
 func toU256(hs []hash32) []pcom.Uint256 {
 	out := make([]pcom.Uint256, len(hs))
 	for i := range hs {
@@ -227,7 +234,71 @@ func (w *c06World) checkProofs(mode int, gridMax int, rng *kernel.RNG, samples i
 	return true
 }
 
-// step executes one plan step; returns false on violation.
+// predict asks `t` (a tree holding exactly the reference leaves) for the root it would have after k more
+// 32-byte leaves and compares with the reference. It never calls Root() itself, so it observes the tree
+// in whatever cache state the preceding operation left it. how: 0 GetRootWithNewLeaves (nil slice for
+// k = 0), 1 GetRootWithNewLeaves (empty non-nil slice for k = 0), 2 GetRootWithNewLeaf when k == 1.
+func (w *c06World) predict(t *merkle.CompactMerkleTree, k int, id int64, how int, when string) (pcom.Uint256, []pcom.Uint256, bool) {
+	var leaves []pcom.Uint256
+	var extra [][]byte
+	if how == 1 {
+		leaves = []pcom.Uint256{}
+	}
+	for j := 0; j < k; j++ {
+		d := leafData(0, id+int64(j))
+		var u pcom.Uint256
+		copy(u[:], d)
+		leaves = append(leaves, u)
+		extra = append(extra, d)
+	}
+	var pred pcom.Uint256
+	api := "GetRootWithNewLeaves"
+	if k == 1 && how == 2 {
+		api = "GetRootWithNewLeaf"
+		pred = t.GetRootWithNewLeaf(leaves[0])
+	} else {
+		pred = t.GetRootWithNewLeaves(leaves)
+	}
+	if want := w.ref.rootWith(extra); hash32(pred) != want {
+		return pred, leaves, w.fail("predicted-root-wrong", "%s: %s for %d new leaves at size %d is %x, RFC 6962 says %x", when, api, k, w.ref.size(), pred, want)
+	}
+	return pred, leaves, true
+}
+
+// cold makes an observation that does not go through Root() right after an operation that left the
+// root cache cold (append, UnMarshal, rebuild from (size, hashes), reopen from the hash file). sel picks
+// what: 0-3 nothing (the usual order: Root() first), 4/5 prediction with zero extra leaves (nil / empty
+// slice), 6 GetRootWithNewLeaf, 7 GetRootWithNewLeaves with 1-3 leaves.
+func (w *c06World) cold(t *merkle.CompactMerkleTree, sel int64, id int64, baseline bool, when string) bool {
+	k, how := 0, 0
+	switch umod(sel, 8) {
+	case 0, 1, 2, 3:
+		return true
+	case 4:
+	case 5:
+		how = 1
+	case 6:
+		k, how = 1, 2
+	default:
+		k = 1 + umod(id, 3)
+	}
+	_, _, ok := w.predict(t, k, id, how, when+" (before any Root() call)")
+	if ok && baseline {
+		if k == 0 {
+			w.run.Probe("cold_cache_zero_leaf_prediction")
+		} else {
+			w.run.Probe("cold_cache_prediction")
+		}
+	}
+	if ok {
+		w.logf("cold prediction %s: k=%d how=%d ok", when, k, how)
+	}
+	return ok
+}
+
+// step executes one plan step; returns false on violation. Bit 3 of a step's observation argument
+// defers the Root() comparison to a later step, so that whatever comes next (prediction, marshal, proofs,
+// persist, reopen) also meets a tree whose root cache is cold.
 func (w *c06World) step(i int, st kernel.Step, baseline bool) bool {
 	run := w.run
 	switch st.Op {
@@ -236,32 +307,22 @@ func (w *c06World) step(i int, st kernel.Step, baseline bool) bool {
 		w.tree.Append(d)
 		w.ref.add(d)
 		w.appends++
-		w.logf("append #%d len %d -> root %x", w.ref.size(), len(d), w.tree.Root())
+		if !w.cold(w.tree, st.Arg(2), st.Arg(0), baseline, "after append") {
+			return false
+		}
+		if st.Arg(2)&8 != 0 {
+			w.logf("append #%d len %d (root check deferred)", w.ref.size(), len(d))
+			break
+		}
 		if !w.checkRoot("after append") {
 			return false
 		}
+		w.logf("append #%d len %d -> root %x", w.ref.size(), len(d), w.tree.Root())
 	case "pred", "predapp":
 		k := umod(st.Arg(0), 6)
-		var leaves []pcom.Uint256
-		tmp := newRefTree()
-		for _, d := range w.ref.leaves {
-			tmp.add(d)
-		}
-		for j := 0; j < k; j++ {
-			d := leafData(0, st.Arg(1)+int64(j))
-			var u pcom.Uint256
-			copy(u[:], d)
-			leaves = append(leaves, u)
-			tmp.add(d)
-		}
-		var pred pcom.Uint256
-		if k == 1 && st.Arg(2)%2 == 1 {
-			pred = w.tree.GetRootWithNewLeaf(leaves[0])
-		} else {
-			pred = w.tree.GetRootWithNewLeaves(leaves)
-		}
-		if hash32(pred) != tmp.root(tmp.size()) {
-			return w.fail("predicted-root-wrong", "predicted root for %d new leaves at size %d is %x, RFC 6962 says %x", k, w.ref.size(), pred, tmp.root(tmp.size()))
+		pred, leaves, ok := w.predict(w.tree, k, st.Arg(1), umod(st.Arg(2), 2)*2+umod(st.Arg(2)>>1, 2)*b2int(k == 0), "prediction step")
+		if !ok {
+			return false
 		}
 		if !w.checkRoot("after prediction (tree must be unchanged)") {
 			return false
@@ -293,6 +354,9 @@ func (w *c06World) step(i int, st kernel.Step, baseline bool) bool {
 			return w.fail("marshal-error", "UnMarshal of own Marshal output: %v", err)
 		}
 		w.tree = t
+		if !w.cold(w.tree, st.Arg(1), st.Arg(0)+77, baseline, "after UnMarshal") {
+			return false
+		}
 		// the same bytes loaded into a store-less tree that held (and cached the root of) another state
 		o := merkle.NewTree(0, nil, nil)
 		o.Append([]byte("other state"))
@@ -301,16 +365,22 @@ func (w *c06World) step(i int, st kernel.Step, baseline bool) bool {
 		if err := o.UnMarshal(b); err != nil {
 			return w.fail("marshal-error", "UnMarshal into another tree: %v", err)
 		}
+		if !w.cold(o, st.Arg(1)>>4, st.Arg(0)+78, baseline, "after UnMarshal into a used store-less tree") {
+			return false
+		}
 		if hash32(o.Root()) != w.ref.root(w.ref.size()) || int(o.TreeSize()) != w.ref.size() {
 			return w.fail("unmarshal-into-used-tree", "a tree that held another state reports size %d root %x after UnMarshal of (size %d, root %x)", o.TreeSize(), o.Root(), w.ref.size(), w.ref.root(w.ref.size()))
 		}
 		w.logf("marshal/unmarshal mode %d (%d bytes)", st.Arg(0)%2, len(b))
-		if !w.checkRoot("after Marshal/UnMarshal") {
+		if st.Arg(1)&8 == 0 && !w.checkRoot("after Marshal/UnMarshal") {
 			return false
 		}
 	case "memreload":
 		// in-memory save and reload of the compact state, no store: roots and predictions only
 		t := merkle.NewTree(w.tree.TreeSize(), append([]pcom.Uint256(nil), w.tree.Hashes()...), nil)
+		if !w.cold(t, st.Arg(1), st.Arg(0)+79, baseline, "after rebuilding a store-less tree from (size, hashes)") {
+			return false
+		}
 		if t.Root() != w.tree.Root() {
 			return w.fail("memory-reload-root", "tree rebuilt from (size, hashes) has root %x, original %x", t.Root(), w.tree.Root())
 		}
@@ -337,7 +407,10 @@ func (w *c06World) step(i int, st kernel.Step, baseline bool) bool {
 			run.Fault("close_reopen")
 		}
 		w.logf("reopen at size %d", w.durSize)
-		if !w.checkRoot("after close+reopen") {
+		if !w.cold(w.tree, st.Arg(0), int64(w.durSize)+80, baseline, "after close+reopen from the hash file") {
+			return false
+		}
+		if st.Arg(0)&8 == 0 && !w.checkRoot("after close+reopen") {
 			return false
 		}
 	case "crash":
@@ -353,7 +426,10 @@ func (w *c06World) step(i int, st kernel.Step, baseline bool) bool {
 			}
 		}
 		w.logf("crash: back to size %d (%d appended leaves lost, file keeps them)", w.durSize, lost)
-		if !w.checkRoot("after crash+reopen with the older persisted state") {
+		if !w.cold(w.tree, st.Arg(0), int64(w.durSize)+81, baseline, "after crash+reopen with the older persisted state") {
+			return false
+		}
+		if st.Arg(0)&8 == 0 && !w.checkRoot("after crash+reopen with the older persisted state") {
 			return false
 		}
 	case "proofs":
@@ -397,6 +473,15 @@ func c06Generate(rng *kernel.RNG, idx int, tier string) *kernel.Plan {
 		}
 	}
 	ops := []string{"app", "pred", "predapp", "marshal", "memreload", "persist", "reopen", "crash", "proofs"}
+	// observation order: per run, a fraction (0, 1/4, 1/2 or all) of the cache-cooling steps is followed by a
+	// Root()-free observation and/or defers its Root() comparison (bit 3)
+	obsP := []float64{0, 0.25, 0.5, 1}[rng.Intn(4)]
+	obs := func() int64 {
+		if !rng.Chance(obsP) {
+			return 0
+		}
+		return int64(rng.Intn(16)) | int64(rng.Intn(16))<<4
+	}
 	appended := 0
 	for appended < n {
 		// a burst of appends, then maybe something else
@@ -405,22 +490,24 @@ func c06Generate(rng *kernel.RNG, idx int, tier string) *kernel.Plan {
 			if kindSwarm == 1 || (kindSwarm == 2 && rng.Chance(0.2)) {
 				kind = int64(rng.Intn(nLeafKinds))
 			}
-			steps = append(steps, kernel.Step{Op: "app", A: []int64{rng.Int63() % idSpace, kind}})
+			steps = append(steps, kernel.Step{Op: "app", A: []int64{rng.Int63() % idSpace, kind, obs()}})
 			appended++
 		}
 		if rng.Chance(0.45) {
 			op := ops[weighted(rng, wt)]
 			switch op {
 			case "pred":
-				steps = append(steps, kernel.Step{Op: op, A: []int64{int64(rng.Intn(6)), rng.Int63() % idSpace, int64(rng.Intn(2))}})
+				steps = append(steps, kernel.Step{Op: op, A: []int64{int64(rng.Intn(6)), rng.Int63() % idSpace, int64(rng.Intn(4))}})
 			case "predapp":
 				k := rng.Intn(6)
 				steps = append(steps, kernel.Step{Op: op, A: []int64{int64(k), rng.Int63() % idSpace, 0}})
 				appended += k
 			case "marshal":
-				steps = append(steps, kernel.Step{Op: op, A: []int64{int64(rng.Intn(2))}})
+				steps = append(steps, kernel.Step{Op: op, A: []int64{int64(rng.Intn(2)), obs()}})
 			case "memreload":
-				steps = append(steps, kernel.Step{Op: op, A: []int64{rng.Int63() % idSpace}})
+				steps = append(steps, kernel.Step{Op: op, A: []int64{rng.Int63() % idSpace, obs()}})
+			case "reopen", "crash":
+				steps = append(steps, kernel.Step{Op: op, A: []int64{obs()}})
 			case "proofs":
 				steps = append(steps, kernel.Step{Op: op, A: []int64{int64(1 + rng.Intn(2)), int64(rng.Intn(1 << 20))}})
 			case "app":
@@ -433,7 +520,7 @@ func c06Generate(rng *kernel.RNG, idx int, tier string) *kernel.Plan {
 		steps = append(steps, kernel.Step{Op: "reopen"}, kernel.Step{Op: "pred", A: []int64{int64(rng.Intn(3)), 7, 1}})
 	}
 	steps = append(steps, kernel.Step{Op: "proofs", A: []int64{0, int64(rng.Intn(1 << 20))}})
-	return &kernel.Plan{Cfg: map[string]int64{"grid": 40, "recover": int64(rng.Intn(2))}, Steps: steps}
+	return &kernel.Plan{Cfg: map[string]int64{"grid": 40, "recover": int64(rng.Intn(2)), "coldsalt": int64(rng.Intn(8))}, Steps: steps}
 }
 
 func c06Execute(run *kernel.Run) {
@@ -501,7 +588,9 @@ func c06Run(run *kernel.Run, dir string, sig *sigAcc) {
 					w.ref.truncate(int(w.durSize))
 				}
 			}
-			ok = ok && w.checkRoot("after the enumerated "+kind)
+			// half of the forks are first observed through a prediction (cold root cache), half through Root()
+			ok = ok && w.cold(w.tree, int64(p)*3+int64(len(kind))+run.Plan.C("coldsalt", 0), int64(p)+82, false, "after the enumerated "+kind) &&
+				w.checkRoot("after the enumerated "+kind)
 			if ok && kind == "crash" && recoverLost {
 				// the ledger's recovery re-appends the lost block hashes
 				for _, d := range lost {
@@ -576,6 +665,8 @@ func init() {
 		ID: "C06", Level: "fault_enumeration", Engine: engineName,
 		Rule: "history = append sequence of 0..70 leaves (thorough: up to 600; 32-byte block hashes, or lengths 0/1/31/33/64/65, optionally from a 4-element id space so that leaves repeat) interleaved with GetRootWithNewLeaf/GetRootWithNewLeaves predictions (0-5 leaves), predict-then-append, " +
 			"Marshal/UnMarshal (in place and into a new tree), store-less reload from (size, hashes), persist, clean close+reopen and crash-with-older-persisted-state steps, ended by the full (leaf, size) and (m, n) proof grid up to size 40 (sampled above). " +
+			"Observation order is varied: in a per-run fraction (0, 1/4, 1/2, all) of the steps that leave the root cache cold (append, UnMarshal, rebuild from (size, hashes), reopen from the hash file - also in half of the enumerated forks) the first observation is a prediction " +
+			"(zero extra leaves with nil or empty slice, GetRootWithNewLeaf, GetRootWithNewLeaves with 1-3 leaves) made before any Root() call, and/or the Root() comparison is deferred so that the next step (prediction, marshal, proofs, persist, reopen) meets the cold cache. " +
 			"The history is executed as written on a tree over merkle.NewFileHashStore on a real file; after EVERY step p the on-disk state is forked (byte copy of the hash file) for both fault kinds {close+reopen, crash: reopen with the last persisted (size, hashes) while the file is longer} " +
 			"and each fork continues with the rest of the history (all of it up to 80 steps, else the next max(60, 2*lost+16) steps; for half of the histories the lost leaves are re-appended first, as ledger recovery does), followed by one more append and proofs of every leaf / every old size against the final tree (sampled above size 40). " +
 			"Oracle: naive recursive RFC 6962 MTH/PATH/PROOF; every proof must equal the reference and be accepted by MerkleVerifier / MerkleProve. evaluations = executed histories (baseline + enumerated fault cases); non-trivial = at least 3 appends; distinct by the roots reached in all cases",
@@ -583,7 +674,7 @@ func init() {
 		Stub:        []string{"the ledger's state batch that persists (size, hashes) is modelled by an in-memory snapshot taken at 'persist' steps"},
 		Assumptions: []string{"process-crash model: a completed hash-file write survives (Append syncs), the persisted (size, hashes) is never newer than the file", "consistency proofs from size 0 are only required to be accepted (RFC 6962 defines PROOF for m >= 1)", "SHA-256 collision resistance"},
 		QuickRuns:   320, ThoroughRuns: 6000, QuickCap: 40, ThoroughCap: 900,
-		RequiredProbes: []string{"enum_crash_with_lost_appends", "enum_close_reopen", "reopen_with_longer_file", "prediction_then_append", "tree_larger_than_grid", "empty_tree", "close_reopen", "crash_after_append_before_persist"},
+		RequiredProbes: []string{"enum_crash_with_lost_appends", "enum_close_reopen", "reopen_with_longer_file", "prediction_then_append", "tree_larger_than_grid", "empty_tree", "close_reopen", "crash_after_append_before_persist", "cold_cache_zero_leaf_prediction", "cold_cache_prediction"},
 		Exhaustive:     true,
 		Generate:       c06Generate,
 		Execute:        c06Execute,
